@@ -53,6 +53,10 @@ let handle cmd args : string option =
       Some (Printf.sprintf "%s %s %s %s" (b01 (is_null s)) (b01 (is_text_field s))
               (match as_string s with Some r -> hx r | None -> "EXC") (hx (quote s)))
     | _ -> None)
+  | "jnum" -> (match w with
+    (* a CIF number -> the text JsonWriter::write_as_number puts into the JSON file, and whether JSON accepts it *)
+    | [h] -> let o = write_as_number (unhx h) in Some (Printf.sprintf "%s %s" (hx o) (b01 (json_number o)))
+    | _ -> None)
   | "lex" -> (match w with
     | [b; h] -> Some (match lex_value (b <> "0") (unhx h) with
                       | LexOk (tok, _) -> Printf.sprintf "OK %d" (List.length tok)
